@@ -361,6 +361,33 @@ def run_case(case):
                 add("mixture|weights", f"{case['id']}: exp(log_normalized_weights) = {np.exp(lw).tolist()} for weights {W.tolist()} x {mult}")
         d = D.VmapMixture(dist, jnp.asarray(W))
         ks(d, lambda xs, j: sum(w * c.cdf(xs) for w, c in zip(W / W.sum(), comps)), (), "mixture")
+        # non-initial states (every trainable leaf moved, as a training run would): the density must still be a NORMALISED
+        # mixture of its components. Component parameters are read back through the accessors; the implied weights are
+        # recovered by least squares from the density itself, so nothing is assumed about how the weights are stored.
+        from mc import params as P
+
+        Xg = np.linspace(-8.0, 12.0, 81)
+        for lvl in (1, 2, 3):
+            dl = unwrap(P.perturb(d, lvl, case["seed"]))
+            tr += 1
+            nt += 1
+            cd = dl.dist
+            if comp == "Normal":
+                cl = [stats.norm(l, s_) for l, s_ in zip(np.asarray(cd.loc, float), np.asarray(cd.scale, float))]
+            elif comp == "StudentT":
+                cl = [stats.t(f_, l, s_) for f_, l, s_ in zip(np.asarray(cd.df, float), np.asarray(cd.loc, float), np.asarray(cd.scale, float))]
+            else:
+                cl = [stats.uniform(a_, b_ - a_) for a_, b_ in zip(np.asarray(cd.minval, float), np.asarray(cd.maxval, float))]
+                edges = np.concatenate([[c.support()[0], c.support()[1]] for c in cl])
+                Xg = Xg[np.min(np.abs(Xg[:, None] - edges[None, :]), axis=1) > 1e-6]  # conventions exactly on an edge differ
+            A = np.stack([c.pdf(Xg) for c in cl], axis=1)
+            b = np.exp(np.asarray(dl.log_prob(jnp.asarray(Xg)), float))
+            w_, *_ = np.linalg.lstsq(A, b, rcond=None)
+            resid = float(np.max(np.abs(A @ w_ - b)) / max(b.max(), 1e-300))
+            if not np.all(np.isfinite(b)) or resid > 1e-8:
+                add("mixture|trained-not-a-mixture", f"{case['id']} level {lvl}: density is not a combination of its component densities (relative residual {resid:.2e})")
+            elif abs(w_.sum() - 1) > 1e-7 or np.any(w_ <= 0):
+                add("mixture|trained-weights-not-normalised", f"{case['id']} level {lvl}: after moving every trainable leaf the implied component weights are {w_.tolist()} (sum {w_.sum():.6g})")
     return {"transitions": tr, "traces": tr, "states": 1, "nontrivial": nt, "violations": viols,
             "outcomes": {f"{leg}:{'ok' if not viols else 'BAD'}": 1}, "max_ratio": max_ratio, "digest": digest.hexdigest(), "sample": sample}
 
